@@ -12,7 +12,8 @@
 (*   compare -> shutil.copy / NOT COPIED / FAILED.                             *)
 EXTENDS Naturals, Sequences, FiniteSets
 
-CONSTANTS FileSets,     \* set of source file sets; a file is [mod, rev, id]
+CONSTANTS UsageChoices,  \* subset of UsageKinds explored
+          FileSets,     \* set of source file sets; a file is [mod, rev, id]
           InitDests,    \* set of initial destinations: functions Names -> copies
           Names,        \* module names
           Dev_NoRevNeverCopied,   \* absent destination compares as epoch and ">=" keeps it (fixed: af5e20b)
@@ -27,8 +28,11 @@ VARIABLES srcs,      \* the source files of this run
           cache,     \* mibsRevisions: Names -> revision the script believes the destination holds (99 = not cached, 98 = "none")
           order,     \* visiting order so far (sequence of file ids) - history variable
           seen, copied, failedn, notcopied,  \* counters / report
-          lastrev    \* revision of the last successfully parsed text (only meaningful with Dev_RevisionLeak)
-vars == <<srcs, todo, dest, dest0, cache, order, seen, copied, failedn, notcopied, lastrev>>
+          lastrev,   \* revision of the last successfully parsed text (only meaningful with Dev_RevisionLeak)
+          usage,     \* command line: "none" | "help" | "badOpt" | "oneArg" | "dstIsFile"
+          exitc      \* exit status (255 = still running)
+vars == <<srcs, todo, dest, dest0, cache, order, seen, copied, failedn, notcopied, lastrev, usage, exitc>>
+UsageKinds == {"none", "help", "badOpt", "oneArg", "dstIsFile"}
 
 NotCached == 99
 NoneRev == 98
@@ -38,11 +42,24 @@ Init ==
   /\ srcs \in FileSets /\ todo = srcs /\ dest0 \in InitDests /\ dest = dest0
   /\ cache = [n \in Names |-> NotCached] /\ order = <<>>
   /\ seen = 0 /\ copied = {} /\ failedn = 0 /\ notcopied = {} /\ lastrev = 0
+  /\ usage \in UsageChoices /\ exitc = 255
+
+\* option parsing: --help exits 0, an unknown option / fewer than two arguments / a destination that is a regular
+\* file exit 64; in all these cases no source is visited and the destination is left alone
+Args ==
+  /\ exitc = 255 /\ usage # "none" /\ todo # {}
+  /\ exitc' = IF usage = "help" THEN 0 ELSE 64
+  /\ todo' = {}
+  /\ UNCHANGED <<srcs, dest, dest0, cache, order, seen, copied, failedn, notcopied, lastrev, usage>>
+Finish ==
+  /\ exitc = 255 /\ todo = {} /\ exitc' = 0
+  /\ UNCHANGED <<srcs, todo, dest, dest0, cache, order, seen, copied, failedn, notcopied, lastrev, usage>>
 
 \* revision the script extracts from a text
 RevSeen(r) == IF Dev_RevisionLeak /\ r = 0 THEN lastrev ELSE r
 
 Visit(f) ==
+  /\ usage = "none" /\ exitc = 255 /\ UNCHANGED <<usage, exitc>>
   /\ f \in todo /\ todo' = todo \ {f} /\ srcs' = srcs /\ order' = Append(order, f.id) /\ seen' = seen + 1 /\ dest0' = dest0
   /\ IF ~Parsable(f)
      THEN /\ failedn' = failedn + 1
@@ -63,11 +80,12 @@ Visit(f) ==
                      /\ cache' = [cache EXCEPT ![n] = srcRev]
                      /\ UNCHANGED <<notcopied, failedn>>
 
-Next == \E f \in todo : Visit(f)
+Next == (\E f \in todo : Visit(f)) \/ Args \/ Finish
 Spec == Init /\ [][Next]_vars /\ WF_vars(Next)
 
 \* ---------------------------------------------------------------- C20 formulas (over observables)
-Done == todo = {}
+Done == exitc # 255
+Visited == IF usage = "none" THEN srcs ELSE {}          \* the files the run has seen
 SeenOf(n, files) == {f \in files : f.mod = n}
 MaxRev(n, files, d0) == LET rs == {f.rev : f \in SeenOf(n, files)} \cup (IF d0[n] = NoCopy THEN {} ELSE {d0[n].rev})
                         IN CHOOSE r \in rs : \A q \in rs : q <= r
@@ -85,9 +103,11 @@ Accounting(files, cp, nc, fl, sn) ==
   /\ sn = Cardinality(files) /\ cp \cap nc = {} /\ Cardinality(cp) + Cardinality(nc) + fl = sn
   /\ fl = Cardinality({f \in files : ~Parsable(f)})
 
-P_LatestWins == Done => LatestWins(dest, dest0, srcs)
-P_OthersUntouched == Done => OthersUntouched(dest, dest0, srcs)
-P_Accounting == Done => Accounting(srcs, copied, notcopied, failedn, seen)
+P_LatestWins == Done => LatestWins(dest, dest0, Visited)
+P_OthersUntouched == Done => OthersUntouched(dest, dest0, Visited)
+P_Accounting == Done => Accounting(Visited, copied, notcopied, failedn, seen)
+P_UsageLeavesDestination == (Done /\ usage # "none") => (dest = dest0 /\ seen = 0 /\ exitc = (IF usage = "help" THEN 0 ELSE 64))
+P_ExitZero == (Done /\ usage = "none") => exitc = 0
 \* monotone: the revision stored under a name never decreases
 P_Monotone == [][\A n \in Names : dest[n] # NoCopy => dest'[n] # NoCopy /\ dest'[n].rev >= dest[n].rev]_vars
 Termination == <>Done
